@@ -150,7 +150,7 @@ def concat(np, chunks):
     return out
 
 
-def same_table(np, got, want, exact_dtype=True):
+def same_rows(np, got, want, exact_dtype=True):
     """identical field names, per-field types, sub-array shapes, byte order, and identical bytes in every row"""
     if not isinstance(got, np.ndarray):
         return "not an array: %r" % type(got)
@@ -267,10 +267,10 @@ def roundtrip_statement(table, header, entry):
             got = eio.read(fn, dtype=table.dtype, type="rec")
         else:
             return "unknown entry point"
-        r = same_table(np, got, want)
+        r = same_rows(np, got, want)
         if r is not True:
             return r
-        r = same_table(np, table, want)
+        r = same_rows(np, table, want)
         if r is not True:
             return "the caller's table changed: %s" % r
         if hdr is not None:
@@ -373,7 +373,7 @@ def history_statement(ops, delim):
         data, hdr = sfile.read(fn, header=True)
         want = cat()
         if delim is None:
-            r = same_table(np, data, want)
+            r = same_rows(np, data, want)
         else:
             r = text_equal(np, data, want)
         if r is not True:
@@ -490,7 +490,7 @@ def same_handle_statement(chunks, header, delim, mode):
                     sf.write(c)
         data, hdr = sfile.read(fn, header=True)
         want = concat(np, chunks)
-        r = same_table(np, data, want) if delim is None else text_equal(np, data, want)
+        r = same_rows(np, data, want) if delim is None else text_equal(np, data, want)
         if r is not True:
             return r
         return header_ok(np, hdr, header, want, delim)
@@ -686,7 +686,7 @@ def text_statement(table, delim, entry):
                 got = r.read()
         else:
             return "unknown entry"
-        r = same_table(np, table, want)
+        r = same_rows(np, table, want)
         if r is not True:
             return "the caller's table changed: %s" % r
         r = text_equal(np, got, want)
